@@ -92,7 +92,7 @@ func c11Class(name, field string) string {
 }
 
 func runC11(res *Result, d *Driver, g *Rng, tier string) {
-	res.Rule = "per PDU type: canonical images (as C01) and mutated canonical images — junk after NULs inside fixed-width slots, substituted length/count octets, inconsistent total length, trailing optional parameters incl. duplicate tags and truncated triplets, maximum-length optional values; every image a decoder accepts is re-encoded and decoded again; non-trivial = the decoder accepted the image, distinct by image"
+	res.Rule = "per PDU type: canonical images (as C01) and mutated canonical images — junk after NULs inside fixed-width slots, substituted length/count octets, inconsistent total length, trailing optional parameters incl. duplicate tags and truncated triplets, maximum-length optional values; every image a decoder accepts is re-encoded and decoded again, refused encodes (an over-long value) in between; non-trivial = the decoder accepted the image, distinct by image"
 	if err := loadLayouts(layoutsPath); err != nil {
 		res.Disagreements = append(res.Disagreements, Violation{Class: "driver-failure", What: err.Error()})
 		return
@@ -118,6 +118,13 @@ func runC11(res *Result, d *Driver, g *Rng, tier string) {
 			_, img, _, _ := goEnc(name, r)
 			if img == nil {
 				continue
+			}
+			// a relay also meets PDUs it has to refuse: an encode that fails (a value too long for its slot) comes in
+			// between, and must leave no trace on the re-encodes that follow
+			if i%2 == 0 {
+				if ro, _, ok := genOverlong(g, s); ok {
+					goEnc(name, ro)
+				}
 			}
 			images := [][]byte{img}
 			images = append(images, mutate(g, img, s, thorough && i < 4)...)
